@@ -1,6 +1,5 @@
 import Mustache.Basic.LineIO
-import Mustache.Model.World
-import Mustache.Spec.World
+import Mustache.Model.WorldStep
 /-! `driver world`: runs the world model on an op file and prints the observation lines of
     `harness/world_driver.cpp` (same grammar, same canonical format). -/
 namespace Mustache.Driver.World
@@ -156,157 +155,72 @@ def parseBuild (ws : List String) : Option (List (CompId × Option Nat) × Mask)
     | ['-', ch] => (compOf ch).map (fun c => (acc.1, Mask.insert acc.2 c))
     | _ => none) ([], [])
 
-/-- executes one op (thread `t`), returns the new state and the observation line (without side notes) -/
-def exec (s : St) (t : Nat) (ws : List String) : St × String :=
-  let info := catalogue
-  let w := s.w
+/-- parse one op (thread `t` already stripped) with entity references resolved by `resolve` -/
+def parseOp {ρ : Type} (resolve : String → Option ρ) (t : Nat) (ws : List String) : Option (Op ρ) :=
+  let comp := fun (c : String) => (c.toList.head?).bind compOf
+  let shr := fun (c : String) => (c.toList.head?).bind sharedOf
   match ws with
   | "create" :: rest =>
-    let maskS := rest.headD "-"
-    match parseMask maskS with
-    | none => (s, "bad-op")
-    | some mask =>
-      -- shared types named after the mask get a fresh default-valued instance each (makeSharedInfo)
-      let (w, sh, fresh) := (rest.drop 1).foldl (fun (acc : WM × Shared × List (Nat × Nat)) tok =>
-        match (tok.toList.head?).bind sharedOf with
-        | some sid =>
-          -- a creation's default-valued shared component goes through the value pool like any other value
-          let (w', inst) := acc.1.poolGet sid 0
-          (w', acc.2.1.add sid inst, acc.2.2)
-        | none => acc) (w, Shared.null, [])
-      let (w, h, cbs) := w.create info t mask sh
-      let (s', line) := { s with w := w, freshVals := fresh ++ s.freshVals }.issue h
-      (s', line ++ showCbs s' cbs)
-  | ["assign", e, c, tok] =>
-    match s.entity e, (c.toList.head?).bind compOf, tok.toNat? with
-    | some h, some ci, some v =>
-      let (w, r, cbs) := w.assign info t h ci (some v)
-      ({ s with w := w }, resStr r ++ showCbs s cbs)
-    | _, _, _ => (s, "bad-op")
-  | ["assign0", e, c] =>
-    match s.entity e, (c.toList.head?).bind compOf with
-    | some h, some ci =>
-      let (w, r, cbs) := w.assign info t h ci none
-      ({ s with w := w }, resStr r ++ showCbs s cbs)
-    | _, _ => (s, "bad-op")
-  | ["remove", e, c] =>
-    match s.entity e, (c.toList.head?).bind compOf with
-    | some h, some ci =>
-      let (w, cbs) := w.removeComp info t h ci
-      ({ s with w := w }, "ok" ++ showCbs s cbs)
-    | _, _ => (s, "bad-op")
-  | "build" :: e :: rest =>
-    match parseBuild rest with
-    | none => (s, "bad-op")
-    | some (adds, rems) =>
-      if adds.length > 2 || rems.length > 2 then (s, "bad-op") else
-      if e = "new" then
-        if w.isLocked then
-          -- createWithOutInit -> createLocked(null mask), then one assign command per argument
-          let (w, h) := w.createLocked t [] Shared.null
-          let (w, cbs) := adds.foldl (fun (acc : WM × List Cb) p =>
-            let (w', _, c) := acc.1.assign info t h p.1 (match p.2 with | some v => some v | none => none)
-            (w', acc.2 ++ c)) (w, [])
-          let (s', line) := { s with w := w }.issue h
-          (s', line ++ showCbs s' cbs)
-        else
-          let (w, h, cbs) := w.buildNewU info adds
-          let (s', line) := { s with w := w }.issue h
-          (s', line ++ showCbs s' cbs)
-      else
-        match s.entity e with
-        | none => (s, "bad-op")
-        | some h =>
-          if w.isLocked then
-            let (w, cbs) := adds.foldl (fun (acc : WM × List Cb) p =>
-              let (w', _, c) := acc.1.assign info t h p.1 p.2
-              (w', acc.2 ++ c)) (w, [])
-            let w := rems.foldl (fun w c => (w.removeComp info t h c).1) w
-            ({ s with w := w }, "ok" ++ showCbs s cbs)
-          else
-            let (w, r, cbs) := w.buildUpdateU info h adds rems
-            ({ s with w := w }, resStr r ++ showCbs s cbs)
-  | ["destroy", e] =>
-    match s.entity e with
-    | some h => ({ s with w := w.destroy t h }, "ok")
-    | none => (s, "bad-op")
-  | ["destroynow", e] =>
-    match s.entity e with
-    | some h => let (w, cbs) := w.destroyNow info t h; ({ s with w := w }, "ok" ++ showCbs s cbs)
-    | none => (s, "bad-op")
-  | ["clone", e] =>
-    match s.entity e with
-    | some h =>
-      match w.clone h with
-      | (w, some d) => { s with w := w }.issue d
-      | (w, none) => ({ s with w := w }, "null")
-    | none => (s, "bad-op")
-  | ["sassign", e, sh, v] =>
-    match s.entity e, (sh.toList.head?).bind sharedOf, v.toNat? with
-    | some h, some sid, some val =>
-      let (w, cbs) := w.sassign info h sid val
-      ({ s with w := w }, "ok" ++ showCbs s cbs)
-    | _, _, _ => (s, "bad-op")
-  | ["sremove", e, sh] =>
-    match s.entity e, (sh.toList.head?).bind sharedOf with
-    | some h, some sid =>
-      let (w, r, cbs) := w.sremove info h sid
-      ({ s with w := w }, (if r then "ret=1" else "ret=0") ++ showCbs s cbs)
-    | _, _ => (s, "bad-op")
-  | ["cleararch", m] =>
-    match parseMask m with
-    | none => (s, "bad-op")
-    | some mask =>
-      let i := w.archs.findIdx (fun a => a.mask == mask)
-      if i < w.archs.length then
-        let (w, cbs) := w.clearArch info i
-        ({ s with w := w }, "ok" ++ showCbs s cbs)
-      else (s, "none")
-  | ["update"] =>
-    let (w, r, cbs) := w.update info
-    ({ s with w := w }, resStr r ++ showCbs s cbs)
-  | ["lock"] => ({ s with w := w.lock }, "ok")
-  | ["unlock"] =>
-    let (w, r, cbs) := w.unlock info
-    ({ s with w := w }, (if r then "ret=1" else "ret=0") ++ showCbs s cbs)
-  | ["dep", m, ds] =>
-    match (m.toList.head?).bind compOf, parseMask ds with
-    | some c, some extra => ({ s with w := { w with deps := addDependency w.deps c extra } }, "ok")
-    | _, _ => (s, "bad-op")
-  | ["valid", e] =>
-    match s.entity e with
-    | some h => (s, if w.isValid h then "valid=1" else "valid=0")
-    | none => (s, "bad-op")
-  | ["has", e, c] =>
-    match s.entity e with
-    | some h =>
-      match (c.toList.head?).bind compOf, (c.toList.head?).bind sharedOf with
-      | some ci, _ => (s, if w.hasComp h ci then "has=1" else "has=0")
-      | none, some sid => (s, if w.hasShared h sid then "has=1" else "has=0")
-      | none, none => (s, "has=0")
-    | none => (s, "bad-op")
-  | [g, e, c] =>
-    if g = "get" || g = "getmut" then
-      match s.entity e, (c.toList.head?).bind compOf with
-      | some h, some ci =>
-        match w.getComp h ci with
-        | none => (s, "val=null")
-        | some v => (s, "val=" ++ showVal v)
-      | _, _ => (s, "bad-op")
-    else if g = "markdirty" then
-      match s.entity e with
-      | some _ => (s, "ok")
-      | none => (s, "bad-op")
-    else (s, "bad-op")
-  | ["archof", e] =>
-    match s.entity e with
-    | some h => (s, match w.archOf h with | some a => s!"arch={a}" | none => "arch=null")
-    | none => (s, "bad-op")
+    (parseMask (rest.headD "-")).map (fun mask => .create t mask ((rest.drop 1).filterMap shr))
+  | ["assign", e, c, tok] => do some (.assign t (← resolve e) (← comp c) (some (← tok.toNat?)))
+  | ["assign0", e, c] => do some (.assign t (← resolve e) (← comp c) none)
+  | ["remove", e, c] => do some (.remove t (← resolve e) (← comp c))
+  | "build" :: e :: rest => do
+    let (adds, rems) ← parseBuild rest
+    if adds.length > 2 || rems.length > 2 then none
+    else if e = "new" then some (.buildNew t adds)
+    else some (.build t (← resolve e) adds rems)
+  | ["destroy", e] => do some (.destroy t (← resolve e))
+  | ["destroynow", e] => do some (.destroyNow t (← resolve e))
+  | ["clone", e] => do some (.clone (← resolve e))
+  | ["sassign", e, sh, v] => do some (.sassign (← resolve e) (← shr sh) (← v.toNat?))
+  | ["sremove", e, sh] => do some (.sremove (← resolve e) (← shr sh))
+  | ["cleararch", m] => (parseMask m).map .clearArch
+  | ["update"] => some .update
+  | ["lock"] => some .lock
+  | ["unlock"] => some .unlock
+  | ["dep", m, ds] => do some (.dep (← comp m) (← parseMask ds))
+  | ["valid", e] => do some (.valid (← resolve e))
+  | ["has", e, c] => do
+    let r ← resolve e
+    match comp c, shr c with
+    | some ci, _ => some (.has r ci)
+    | none, some sid => some (.hasShared r sid)
+    | none, none => none
+  | ["get", e, c] => do some (.get (← resolve e) (← comp c))
+  | ["getmut", e, c] => do some (.get (← resolve e) (← comp c))
+  | ["archof", e] => do some (.archOf (← resolve e))
+  | _ => none
+
+/-- executes one op (thread `t`) on the model through `WM.step`, returns the new state and the observation line -/
+def exec (s : St) (t : Nat) (ws : List String) : St × String :=
+  match ws with
+  | ["markdirty", e, _] => (s, if (s.entity e).isSome then "ok" else "bad-op")
   | ["marked", e] =>
     match s.entity e with
-    | some h => (s, if w.marked.contains h then "marked=1" else "marked=0")
+    | some h => (s, if s.w.marked.contains h then "marked=1" else "marked=0")
     | none => (s, "bad-op")
-  | _ => (s, "bad-op")
+  | _ =>
+  match parseOp s.entity t ws with
+  | none => (s, "bad-op")
+  | some op =>
+    let (w, out, cbs) := s.w.step catalogue op
+    let s := { s with w := w }
+    match out with
+    | .created h => let (s', line) := s.issue h; (s', line ++ showCbs s' cbs)
+    | .null => (s, "null")
+    | .ok => (s, "ok" ++ showCbs s cbs)
+    | .selfMove => (s, "err:self-move" ++ showCbs s cbs)
+    | .lockedUpdate => (s, "err:locked-update")
+    | .noArch => (s, "none")
+    | .ret b => (s, (if b then "ret=1" else "ret=0") ++ showCbs s cbs)
+    | .flag b =>
+      (s, match op with
+        | .valid _ => if b then "valid=1" else "valid=0"
+        | _ => if b then "has=1" else "has=0")
+    | .val v => (s, match v with | none => "val=null" | some x => "val=" ++ showVal x)
+    | .arch _ => (s, match s.w.archOf (match op with | .archOf e => e | _ => Handle.null) with
+        | some a => s!"arch={a}" | none => "arch=null")
 
 def step (s : St) (line : String) : St × List String :=
   match words line with
@@ -365,163 +279,30 @@ def specDump (ws : WS) (n : Nat) : List String := Id.run do
       out := out ++ [s!"E {o} valid=1 comps={if comps.isEmpty then "-" else ",".intercalate comps} shared={if sh.isEmpty then "-" else ",".intercalate sh}"]
   return out ++ ["end"]
 
-def entityOps : List String :=
-  ["assign", "assign0", "remove", "destroy", "destroynow", "clone", "sassign", "sremove", "valid", "has", "get",
-   "getmut", "archof", "markdirty", "marked"]
-
 def specExec (st : St) (ws : WS) (t : Nat) (ws_ : List String) : WS × String :=
-  let info := catalogue
-  let locked := ws.lockDepth > 0
-  -- an entity token that names no issued handle is rejected by both drivers
-  let badRef := match ws_ with
-    | op :: e :: _ => (entityOps.contains op || (op == "build" && e != "new")) && (st.entity e).isNone
-    | _ => false
-  if badRef then (ws, "bad-op") else
   match ws_ with
-  | "create" :: rest =>
-    match parseMask (rest.headD "-") with
-    | none => (ws, "bad-op")
-    | some mask =>
-      let sh := (rest.drop 1).filterMap (fun tok => ((tok.toList.head?).bind sharedOf).map (fun sid => (sid, 0)))
-      if locked then
-        let o := ws.ents.length
-        ({ ws with ents := ws.ents ++ [none] }.push t (.create o mask sh), s!"h {o}")
-      else
-        let (ws, o, cbs) := ws.doCreate info mask sh
-        (ws, s!"h {o}" ++ showSCbs cbs)
-  | ["assign", e, c, tok] =>
-    match (c.toList.head?).bind compOf, tok.toNat? with
-    | some ci, some v =>
-      let o := st.ordinal e
-      if locked then (ws.push t (.assign o ci (storedVal info ci (some v))), "ok")
-      else match o with
-        | some k => let (ws, cbs) := ws.doAssign info k ci (storedVal info ci (some v)); (ws, "ok" ++ showSCbs cbs)
-        | none => (ws, "ok")
-    | _, _ => (ws, "bad-op")
-  | ["assign0", e, c] =>
-    match (c.toList.head?).bind compOf with
-    | some ci =>
-      let o := st.ordinal e
-      if locked then (ws.push t (.assign o ci (storedVal info ci none)), "ok")
-      else match o with
-        | some k => let (ws, cbs) := ws.doAssign info k ci (storedVal info ci none); (ws, "ok" ++ showSCbs cbs)
-        | none => (ws, "ok")
-    | none => (ws, "bad-op")
-  | ["remove", e, c] =>
-    match (c.toList.head?).bind compOf with
-    | some ci =>
-      let o := st.ordinal e
-      if locked then (ws.push t (.remove o ci), "ok")
-      else match o with
-        | some k => let (ws, cbs) := ws.doRemove info k ci; (ws, "ok" ++ showSCbs cbs)
-        | none => (ws, "ok")
-    | none => (ws, "bad-op")
-  | "build" :: e :: rest =>
-    match parseBuild rest with
-    | none => (ws, "bad-op")
-    | some (adds, rems) =>
-      if adds.length > 2 || rems.length > 2 then (ws, "bad-op") else
-      if e = "new" then
-        if locked then
-          let o := ws.ents.length
-          let ws := { ws with ents := ws.ents ++ [none] }.push t (.create o [] [])
-          let ws := adds.foldl (fun ws p => ws.push t (.assign (some o) p.1 (storedVal info p.1 p.2))) ws
-          (ws, s!"h {o}")
-        else
-          let (ws, o, cbs) := ws.doBuildNew info adds
-          (ws, s!"h {o}" ++ showSCbs cbs)
-      else
-        let o := st.ordinal e
-        if locked then
-          let ws := adds.foldl (fun ws p => ws.push t (.assign o p.1 (storedVal info p.1 p.2))) ws
-          let ws := rems.foldl (fun ws c => ws.push t (.remove o c)) ws
-          (ws, "ok")
-        else match o with
-          | some k =>
-            match ws.doBuild info k adds rems with
-            | some (ws, cbs) => (ws, "ok" ++ showSCbs cbs)
-            | none => (ws, "err:self-move")
-          | none => (ws, "ok")
-  | ["destroy", e] =>
-    let o := st.ordinal e
-    if locked then (ws.push t (.destroy o), "ok")
-    else match o with
-      | some k => (if (ws.alive k).isSome then { ws with marked := insertNat ws.marked k } else ws, "ok")
-      | none => (ws, "ok")
-  | ["destroynow", e] =>
-    let o := st.ordinal e
-    if locked then (ws.push t (.destroyNow o), "ok")
-    else match o with
-      | some k => let (ws, cbs) := ws.doDestroy info k; (ws, "ok" ++ showSCbs cbs)
-      | none => (ws, "ok")
-  | ["clone", e] =>
-    match st.ordinal e with
-    | some k =>
-      match ws.doClone k with
-      | (ws, some o) => (ws, s!"h {o}")
-      | (ws, none) => (ws, "null")
-    | none => (ws, "null")
-  | ["sassign", e, sh, v] =>
-    match st.ordinal e, (sh.toList.head?).bind sharedOf, v.toNat? with
-    | some k, some sid, some val =>
-      match ws.alive k with
-      | some ent => (ws.setEnt k (some { ent with shared := setShared ent.shared sid val }), "ok")
-      | none => (ws, "ok")
-    | _, _, _ => (ws, "ok")
-  | ["sremove", e, sh] =>
-    match st.ordinal e, (sh.toList.head?).bind sharedOf with
-    | some k, some sid =>
-      match ws.alive k with
-      | some ent =>
-        if ent.shared.any (·.1 == sid) then
-          (ws.setEnt k (some { ent with shared := ent.shared.filter (·.1 != sid) }), "ret=1")
-        else (ws, "ret=0")
-      | none => (ws, "ret=0")
-    | _, _ => (ws, "ret=0")
-  | ["cleararch", m] =>
-    match parseMask m with
-    | some mask => let (ws, cbs) := ws.clearArch info mask; (ws, "ok" ++ showSCbs cbs)
-    | none => (ws, "bad-op")
-  | ["update"] =>
-    if locked then (ws, "err:locked-update") else
-    let (ws, cbs) := ws.update info
-    (ws, "ok" ++ showSCbs cbs)
-  | ["lock"] => (ws.lock, "ok")
-  | ["unlock"] =>
-    let (ws, r, cbs) := ws.unlock info
-    (ws, (if r then "ret=1" else "ret=0") ++ showSCbs cbs)
-  | ["dep", m, ds] =>
-    match (m.toList.head?).bind compOf, parseMask ds with
-    | some c, some extra => ({ ws with deps := addDependency ws.deps c extra }, "ok")
-    | _, _ => (ws, "bad-op")
-  | ["valid", e] => (ws, if ws.isAlive (st.ordinal e) then "valid=1" else "valid=0")
-  | ["has", e, c] =>
-    match st.ordinal e with
-    | some k =>
-      match ws.alive k with
-      | some ent =>
-        match (c.toList.head?).bind compOf, (c.toList.head?).bind sharedOf with
-        | some ci, _ => (ws, if (compSet ent).contains ci then "has=1" else "has=0")
-        | none, some sid => (ws, if ent.shared.any (·.1 == sid) then "has=1" else "has=0")
-        | none, none => (ws, "has=0")
-      | none => (ws, "has=0")
-    | none => (ws, "has=0")
-  | [g, e, c] =>
-    if g = "get" || g = "getmut" then
-      match st.ordinal e, (c.toList.head?).bind compOf with
-      | some k, some ci =>
-        match ws.alive k with
-        | some ent =>
-          match ent.comps.find? (·.1 == ci) with
-          | some p => (ws, "val=" ++ showVal p.2)
-          | none => (ws, "val=null")
-        | none => (ws, "val=null")
-      | _, _ => (ws, "val=null")
-    else if g = "markdirty" then (ws, "ok")
-    else (ws, "bad-op")
-  | ["archof", e] => (ws, if ws.isAlive (st.ordinal e) then "arch=some" else "arch=null")
-  | ["marked", _] => (ws, "marked=*")
-  | _ => (ws, "bad-op")
+  | ["markdirty", e, _] => (ws, if (st.entity e).isSome then "ok" else "bad-op")
+  | ["marked", e] => (ws, if (st.entity e).isSome then "marked=*" else "bad-op")
+  | _ =>
+  -- an entity token that names no issued handle is rejected by both drivers; otherwise it resolves to an ordinal or to
+  -- "a handle nobody was issued" (`none`)
+  match parseOp (fun tok => if (st.entity tok).isSome then some (st.ordinal tok) else none) t ws_ with
+  | none => (ws, "bad-op")
+  | some op =>
+    let (ws, out, cbs) := ws.step catalogue op
+    (ws, match out with
+      | .created o => s!"h {o}" ++ showSCbs cbs
+      | .null => "null"
+      | .ok => "ok" ++ showSCbs cbs
+      | .selfMove => "err:self-move"
+      | .lockedUpdate => "err:locked-update"
+      | .noArch => "ok"
+      | .ret b => (if b then "ret=1" else "ret=0") ++ showSCbs cbs
+      | .flag b => (match op with
+        | .valid _ => if b then "valid=1" else "valid=0"
+        | _ => if b then "has=1" else "has=0")
+      | .val v => (match v with | none => "val=null" | some x => "val=" ++ showVal x)
+      | .arch b => if b then "arch=some" else "arch=null")
 
 def specStep (st : St) (ws : WS) (line : String) : WS × List String :=
   match words line with
